@@ -13,22 +13,48 @@ import (
 
 // ---- alphabet -------------------------------------------------------------------------------
 
-// Names whose index is odd are registered with a TTL in the past, so that they
-// are always expired at the next sweep; even ones never expire. This keeps
-// expiry independent of the clock and of scheduling.
-var names = []string{"ALPHA", "BRAVO", "CHARLIE", "DELTA", "ECHO"}
+// The table is keyed by the name string as passed (a NetBIOS name is 16 significant bytes, the last
+// one being the service suffix): names 5..8 are full 16-byte names that differ from each other only
+// in the suffix byte (5/6), only in letter case (6/7) or only in the padding bytes (6/8). Every
+// entry is a distinct name to the model.
+var names = []string{"ALPHA", "BRAVO", "CHARLIE", "DELTA", "ECHO",
+	"FILESRV        \x00", "FILESRV        \x20", "filesrv        \x20", "FILESRV\x00\x00\x00\x00\x00\x00\x00\x00\x20"}
 
-func ttlOf(name int) time.Duration {
-	if name%2 == 1 {
+// TTLs are hours in the past or in the future, so that expiry is independent of the clock and of
+// scheduling: no run lasts an hour. A registration carries a TTL code: 0 = by name (odd index: one
+// hour in the past, so that the name is always expired at the next sweep; even index: one hour
+// ahead), 1 = +1h, 2 = -1h, 3 = +1000h.
+func ttlOf(o op) time.Duration {
+	switch o.TTL {
+	case 1:
+		return time.Hour
+	case 2:
+		return -time.Hour
+	case 3:
+		return 1000 * time.Hour
+	}
+	if o.Name%2 == 1 {
 		return -time.Hour
 	}
 	return time.Hour
 }
 
-// addresses; 3 and 4 are the same address in 4-byte and 16-byte form
+func ttlString(o op) string {
+	d := ttlOf(o)
+	if d < 0 {
+		return "-" + (-d).String()
+	}
+	return "+" + d.String()
+}
+
+// addresses; 3 and 4 are the same address in 4-byte and 16-byte form. 6.. exist so that a group can
+// grow well beyond a handful of owners.
 var addrs = []net.IP{
 	net.IPv4(10, 0, 0, 1).To4(), net.IPv4(10, 0, 0, 2).To4(), net.IPv4(10, 0, 0, 3).To4(),
 	net.IPv4(192, 168, 7, 7).To4(), net.IPv4(192, 168, 7, 7).To16(), net.ParseIP("fe80::1"),
+	net.IPv4(10, 0, 1, 6).To4(), net.IPv4(10, 0, 1, 7).To4(), net.IPv4(10, 0, 1, 8).To4(), net.IPv4(10, 0, 1, 9).To4(),
+	net.IPv4(10, 0, 1, 10).To4(), net.IPv4(10, 0, 1, 11).To4(), net.IPv4(10, 0, 1, 12).To4(), net.IPv4(10, 0, 1, 13).To4(),
+	net.IPv4(10, 0, 1, 14).To4(), net.IPv4(10, 0, 1, 15).To4(),
 }
 
 // canonical address id: ids that net.IP.Equal identifies map to the same id
@@ -44,20 +70,23 @@ type op struct {
 	Name int    `json:"name"`
 	Type int    `json:"type,omitempty"` // 0 unique, 1 group
 	IP   int    `json:"ip,omitempty"`
+	TTL  int    `json:"ttl,omitempty"` // reg only, see ttlOf
 }
+
+func nameString(i int) string { return fmt.Sprintf("%q", names[i]) }
 
 func (o op) String() string {
 	switch o.Kind {
 	case "reg":
-		return fmt.Sprintf("Register(%s,%s,ip%d)", names[o.Name], []string{"Unique", "Group"}[o.Type], o.IP)
+		return fmt.Sprintf("Register(%s,%s,ip%d,%s)", nameString(o.Name), []string{"Unique", "Group"}[o.Type], o.IP, ttlString(o))
 	case "query":
-		return fmt.Sprintf("Query(%s)", names[o.Name])
+		return fmt.Sprintf("Query(%s)", nameString(o.Name))
 	case "rel":
-		return fmt.Sprintf("Release(%s,ip%d)", names[o.Name], o.IP)
+		return fmt.Sprintf("Release(%s,ip%d)", nameString(o.Name), o.IP)
 	case "refresh":
-		return fmt.Sprintf("Refresh(%s,ip%d)", names[o.Name], o.IP)
+		return fmt.Sprintf("Refresh(%s,ip%d)", nameString(o.Name), o.IP)
 	case "conflict":
-		return fmt.Sprintf("MarkConflict(%s)", names[o.Name])
+		return fmt.Sprintf("MarkConflict(%s)", nameString(o.Name))
 	}
 	return "CleanExpired()"
 }
@@ -107,7 +136,7 @@ func ownersKey(ips []net.IP) (string, bool) {
 func run(tbl *nbtns.NetBIOSNameServer, o op) (result, []net.IP) {
 	switch o.Kind {
 	case "reg":
-		err := tbl.RegisterName(names[o.Name], nbtns.NameType(o.Type), addrs[o.IP], ttlOf(o.Name))
+		err := tbl.RegisterName(names[o.Name], nbtns.NameType(o.Type), addrs[o.IP], ttlOf(o))
 		return result{OK: err == nil}, nil
 	case "query":
 		owners, typ, err := tbl.QueryName(names[o.Name])
@@ -129,10 +158,19 @@ func run(tbl *nbtns.NetBIOSNameServer, o op) (result, []net.IP) {
 
 // ---- reference model: an atomic map ---------------------------------------------------------------
 
+// expiry of a record at the next sweep
+const (
+	live = 0 // expiry lies hours ahead: a sweep must keep the name
+	dead = 1 // expiry lies hours back: a sweep must remove the name
+	open = 2 // not determined by the documented behaviour: a sweep may do either
+)
+
 type rec struct {
 	Type     int
 	Conflict bool
 	Owners   []int // canonical ids in registration order, no duplicates
+	Exp      int   // live, dead, open
+	RI       int   // sign of the refresh interval = sign of the TTL of the registration that created the record
 }
 
 // state is immutable by convention; canonical string form for hashing/equality
@@ -141,7 +179,8 @@ type state map[int]rec
 func (s state) clone() state {
 	n := state{}
 	for k, v := range s {
-		n[k] = rec{v.Type, v.Conflict, append([]int{}, v.Owners...)}
+		v.Owners = append([]int{}, v.Owners...)
+		n[k] = v
 	}
 	return n
 }
@@ -157,7 +196,7 @@ func (s state) key() string {
 		r := s[k]
 		os := append([]int{}, r.Owners...)
 		sort.Ints(os)
-		fmt.Fprintf(&sb, "%d:%d:%v:%v;", k, r.Type, r.Conflict, os)
+		fmt.Fprintf(&sb, "%d:%d:%v:%v:%d:%d;", k, r.Type, r.Conflict, os, r.Exp, r.RI)
 	}
 	return sb.String()
 }
@@ -176,6 +215,23 @@ type outcome struct {
 	Next state
 }
 
+func expOf(ttl int64) int {
+	if ttl < 0 {
+		return dead
+	}
+	return live
+}
+
+// A registration that succeeds on an existing record (a member joining a group, a member or owner
+// registering again) carries a TTL of its own. Whether it moves the record's expiry is not stated
+// anywhere: it stays determined only if the new TTL points the same way as the current expiry.
+func merge(cur, ttlExp int) int {
+	if cur == ttlExp {
+		return cur
+	}
+	return open
+}
+
 // apply returns every (result, next state) the property allows for o in state s.
 // Where the property determines the outcome there is exactly one.
 func apply(s state, o op) []outcome {
@@ -184,26 +240,40 @@ func apply(s state, o op) []outcome {
 	same := func(ok bool) outcome { return outcome{result{OK: ok}, s} }
 	switch o.Kind {
 	case "reg":
+		te := expOf(int64(ttlOf(o)))
+		ri := 1
+		if te == dead {
+			ri = -1
+		}
 		if !exists {
 			n := s.clone()
-			n[o.Name] = rec{Type: o.Type, Owners: []int{ip}}
+			n[o.Name] = rec{Type: o.Type, Owners: []int{ip}, Exp: te, RI: ri}
 			return []outcome{{result{OK: true}, n}}
+		}
+		// success that leaves the owners as they are (expiry possibly moved by the new TTL)
+		again := func() outcome {
+			n := s.clone()
+			x := n[o.Name]
+			x.Exp = merge(x.Exp, te)
+			n[o.Name] = x
+			return outcome{result{OK: true}, n}
 		}
 		var outs []outcome
 		switch {
 		case r.Type == 1 && o.Type == 1:
 			if has(r.Owners, ip) {
-				outs = []outcome{same(true)}
+				outs = []outcome{again()}
 			} else {
 				n := s.clone()
 				x := n[o.Name]
 				x.Owners = append(x.Owners, ip)
+				x.Exp = merge(x.Exp, te)
 				n[o.Name] = x
 				outs = []outcome{{result{OK: true}, n}}
 			}
 		case r.Type == 0 && o.Type == 0 && has(r.Owners, ip):
 			// the owner registers its own unique name again: not determined by the property
-			outs = []outcome{same(false), same(true)}
+			outs = []outcome{same(false), again()}
 		case r.Type == 0 && o.Type == 0:
 			outs = []outcome{same(false)} // a unique name is held by one address only
 		default:
@@ -211,14 +281,14 @@ func apply(s state, o op) []outcome {
 			// only for a current owner
 			outs = []outcome{same(false)}
 			if has(r.Owners, ip) {
-				outs = append(outs, same(true))
+				outs = append(outs, again())
 			}
 		}
 		if r.Conflict {
 			// a conflict-marked name: the property does not say whether it can be registered
 			// again. Refusal, or a fresh record for the new registrant, both keep the invariants.
 			fresh := s.clone()
-			fresh[o.Name] = rec{Type: o.Type, Owners: []int{ip}}
+			fresh[o.Name] = rec{Type: o.Type, Owners: []int{ip}, Exp: te, RI: ri}
 			outs = append(outs, same(false), outcome{result{OK: true}, fresh})
 		}
 		return outs
@@ -253,7 +323,22 @@ func apply(s state, o op) []outcome {
 		}
 		return []outcome{{result{OK: true}, n}}
 	case "refresh":
-		return []outcome{same(exists && has(r.Owners, ip))}
+		if !exists || !has(r.Owners, ip) {
+			return []outcome{same(false)}
+		}
+		// "RefreshName updates the TTL for a name registration": a successful refresh moves the
+		// expiry to now + refresh interval. With an interval of +1h/+1000h the name is live again
+		// whatever its expiry was; a negative interval (a device of this check) is only held to
+		// keep a name dead that was dead already.
+		n := s.clone()
+		x := n[o.Name]
+		if x.RI > 0 {
+			x.Exp = live
+		} else {
+			x.Exp = merge(x.Exp, dead)
+		}
+		n[o.Name] = x
+		return []outcome{{result{OK: true}, n}}
 	case "conflict":
 		if !exists {
 			return []outcome{same(false)}
@@ -264,20 +349,36 @@ func apply(s state, o op) []outcome {
 		n[o.Name] = x
 		return []outcome{{result{OK: true}, n}}
 	}
-	// clean: every name registered with a TTL in the past disappears
-	n := s.clone()
-	for k := range n {
-		if ttlOf(k) < 0 {
-			delete(n, k)
+	// clean: every name whose expiry lies in the past disappears, every name whose expiry lies ahead
+	// stays; one outcome per choice for the names whose expiry is open
+	outs := []outcome{{result{OK: true}, s.clone()}}
+	var ks []int
+	for k := range s {
+		ks = append(ks, k)
+	}
+	sort.Ints(ks)
+	for _, k := range ks {
+		switch s[k].Exp {
+		case dead:
+			for _, o := range outs {
+				delete(o.Next, k)
+			}
+		case open:
+			m := len(outs)
+			for i := 0; i < m; i++ {
+				gone := outs[i].Next.clone()
+				delete(gone, k)
+				outs = append(outs, outcome{result{OK: true}, gone})
+			}
 		}
 	}
-	return []outcome{{result{OK: true}, n}}
+	return outs
 }
 
 // visible is what a full scan with Query sees of a state.
-func (s state) visible(nNames int) string {
+func (s state) visible(scan []int) string {
 	var sb strings.Builder
-	for k := 0; k < nNames; k++ {
+	for _, k := range scan {
 		outs := apply(s, op{Kind: "query", Name: k})
 		fmt.Fprintf(&sb, "%d=%v/%s/%d;", k, outs[0].Res.OK, outs[0].Res.Owners, outs[0].Res.Type)
 	}
